@@ -35,8 +35,9 @@ CLAIMED = {
          "and its attribute, every operator spelling and its AST node, the precedence levels (per operator, not > comparisons > and > or), the shapes "
          "built for ranges / implicit lists / regex, that select and select_expression share one parse, and that malformed input ends in an exception.",
          _NOTE, "DESIGN.md §4 C12"),
- "C17": ("dependence-set analysis of the cell conversions, literal-zero orientation check, positional agreement getter/setter vs callee signatures, package-wide paired-field enumeration, degree/radian unit inference",
+ "C17": ("algebraic value numbering of the cell conversions (Gram identities as polynomial identities modulo sqrt^2 and sin^2+cos^2), dependence-set analysis, literal-zero orientation check, positional agreement getter/setter vs callee signatures, package-wide paired-field enumeration, degree/radian unit inference",
          "Which inputs each output of the lengths/angles <-> box-vector conversions depends on (alpha=angle(b,c), beta=angle(c,a), gamma=angle(a,b); "
+         "for all inputs in exact arithmetic the vectors built from (lengths, angles) have |a|,|b|,|c| and a.b, b.c, c.a equal to those parameters, the inverse is sqrt(v.v) / acos(v.w/|v||w|), the LAMMPS tilt factors are the box-vector components and parse_box inverts write_box; "
          "a along x, b in the xy plane) is decided for unitcell.py, the Trajectory property pair and the LAMMPS box reader/writer; lengths and angles "
          "travel together at every construction/assignment site of the package; degrees are converted before cos/sin and back after arccos. "
          "Numerical agreement is not decided.", _NOTE, "DESIGN.md §4 C17"),
